@@ -2,6 +2,7 @@ SPECIFICATION MCSpec
 CONSTANTS Mode = "wire"
           Vals = {0}
           MaxLen = 4
+          MaxHeld = 0
 VIEW View
 INVARIANTS TypeOK WireRoundTrip
 CHECK_DEADLOCK FALSE
